@@ -182,11 +182,11 @@ def text_of(desc):
     if fam == "wild":
         from mc.gen import wild
 
-        return wild.WILD[lang][desc["name"]]
+        return dict(wild.snippets(lang))[desc["name"]]
     if fam == "wdamage":
         from mc.gen import wild
 
-        return apply_damage(wild.WILD[lang][desc["name"]], desc["op"], desc["at"])
+        return apply_damage(dict(wild.snippets(lang))[desc["name"]], desc["op"], desc["at"])
     if fam == "corpus":
         text = corpus_text(lang, desc["name"])
         if "op" not in desc:
